@@ -134,9 +134,11 @@ MemoGet(fam, key, direct) ==
   IF fam \in MemoFamilies /\ \E p \in memo[fam] : p[1] = key
   THEN (CHOOSE p \in memo[fam] : p[1] = key)[2] ELSE direct
 
-BlobAt(n) == MemoGet("blob", n, IF n >= 0 /\ n <= db.height /\ n < Len(db.blobs) THEN Found(db.blobs[n + 1]) ELSE NotFound)
-Has(n) == BlobAt(n).k = "found"
-Blob(n) == BlobAt(n).v
+(* the blob of block n (same meaning as MemoGet("blob", n, ...), spelt out: Blob is used at every step of every access path) *)
+BlobMemo(n) == "blob" \in MemoFamilies /\ \E p \in memo["blob"] : p[1] = n
+Has(n) == BlobMemo(n) \/ (n >= 0 /\ n <= db.height /\ n < Len(db.blobs))
+Blob(n) == IF BlobMemo(n) THEN (CHOOSE p \in memo["blob"] : p[1] = n)[2].v ELSE db.blobs[n + 1]
+BlobAt(n) == IF Has(n) THEN Found(Blob(n)) ELSE NotFound
 
 TxByIndex(n, i) == IF ~Has(n) THEN NotFound ELSE LazyGet("tx", Blob(n).idx.txs, TxSection(Blob(n)), i)
 RcByIndex(n, i) == IF ~Has(n) THEN NotFound ELSE LazyGet("rc", Blob(n).idx.rcs, RcSection(Blob(n)), i)
